@@ -126,7 +126,22 @@ def mk_proc_from_parts(parts):
     # every argument is an Iterable: lists, tuples and generators in turn (chosen by the sizes, so deterministic)
     forms = ["list", "tuple", "generator"]
     k0 = len(parts["ints"]) + 2 * len(parts["outs"]) + len(parts["ins"])
-    fu = lambda f: units.FuncUnit(models[f[0][0]], shaped([models[p] for p in f[1]], forms[(k0 + len(f[1])) % 3]))
+    # a predecessor is referred to by a UnitModel: the listed object itself, an equal copy of it, or (one build in three)
+    # a model that agrees with it in the NAME only - predecessors are identified by name
+    raw = {}
+    for u in parts["ins"] + parts["inouts"] + [f[0] for f in parts["outs"]] + [f[0] for f in parts["ints"]]:
+        raw[u[0]] = u
+
+    def pred_obj(p, j):
+        mode = (k0 + j) % 3
+        if mode == 1:
+            return copy.deepcopy(models[p])
+        if mode == 2:
+            nm, width, caps, rl, wl, mem = raw[p]
+            return mk_unit([nm, int(width) + 1, list(caps)[:1], rl, wl, []])
+        return models[p]
+    fu = lambda f: units.FuncUnit(models[f[0][0]], shaped([pred_obj(p, j) for j, p in enumerate(f[1])],
+                                                          forms[(k0 + len(f[1])) % 3]))
     return pu.ProcessorDesc(shaped([models[u[0]] for u in parts["ins"]], forms[k0 % 3]),
                             shaped([fu(f) for f in parts["outs"]], forms[(k0 + 1) % 3]),
                             shaped([models[u[0]] for u in parts["inouts"]], forms[(k0 + 2) % 3]),
@@ -340,7 +355,18 @@ def run_bag(a, b, plain=False):
             A = A2
         except Exception:  # noqa: BLE001
             A = mk_bag(a, plain)
-    return [A == B, len(A), repr(A)]
+    if (len(a) + 2 * len(b)) % 3 == 0:
+        # history: the RIGHT-hand record was looked into after it was built (a lookup of an idle unit leaves an empty
+        # list behind, as in the simulator's own records); empty lists must not matter on either side
+        try:
+            for k, _ in a:
+                B[k]
+            B["\x00idle"]
+            A["\x00idle2"]
+        except Exception:  # noqa: BLE001
+            pass
+    e1, e2 = A == B, B == A
+    return [e1 if bool(e1) == bool(e2) else Sym("asymmetric"), len(A), repr(A)]
 
 
 def enc_pyqueue(groups_front_first):
